@@ -476,7 +476,9 @@ class ModuleEnv:
             else:
                 bind[gname] = fresh_value(parse_sort(gsort), gname)     # unconstrained: requires must hold for it
         env = dict(bind)
-        env.update({k: v for k, v in st.env.items() if k.startswith('$g_')})
+        if contract is not None:      # local call model of the function under verification: it may mention the caller's variables
+            env = dict(st.env)
+            env.update(bind)
         for gname in c.get('ghost_results', []):       # callee ghosts visible to the caller (e.g. proof witnesses)
             gv = VInt(z3.Int(fresh_name(gname)))
             env[gname] = gv
